@@ -771,7 +771,16 @@ def judge_presence(ctx, cnt, spec, real, case_id):
                 # diagnostic naming the signal; a name that is no method of the class is kept verbatim
                 status = emitter_status(spec, b, value, elems)
                 warned = any('Emitter method' in w and ('::%s ' % b['key'].split('::', 1)[-1]) in w for w in warnings)
-                cnt.hit('presence:emitter-' + status)
+                # a signal that is not introspectable (skipped itself, inside a skipped class, ...) is not validated
+                dead = el['rec']['attrs'].get('introspectable') == '0' or any(
+                    p in elems and elems[p]['rec']['attrs'].get('introspectable') == '0' for p in el['path'])
+                cnt.hit('presence:emitter-' + status + ('-unvalidated' if dead else ''))
+                if status == 'incompatible' and dead:
+                    if got not in (None, value):
+                        ctx.report_failure('emitter-incompatible:%s:%s' % (case_id, b['key']),
+                                           'block %r: (emitter %s): GIR has emitter=%r (%s)' % (b['key'], value, got, addr),
+                                           {'kind': 'case', 'spec': spec})
+                    continue
                 if status == 'incompatible':
                     if got is not None or not warned:
                         ctx.report_failure('emitter-incompatible:%s:%s' % (case_id, b['key']),
